@@ -126,29 +126,63 @@ def enumCfgOfField (objCfg : Cfg) (f : Field) : Field :=
 
 /-- The step the callback performs at one object: `while depth < current_depth { pop; current_depth -= 1 }`,
     then combine the object's own cfg with the top of the stack. -/
-def cfgStep (w : CfgWalk) (depth : Nat) (own : Cfg) : M (Cfg × CfgWalk) := do
+def cfgStep (w : CfgWalk) (depth : Nat) (own : Cfg) : M (Cfg × CfgWalk) :=
   let w1 : CfgWalk :=
     if depth < w.currentDepth then
       { currentDepth := depth, stack := w.stack.drop (w.currentDepth - depth) }
     else w
   match w1.stack.head? with
-  | none => throw (.panic "cfg_stack_empty")
-  | some top => pure (Cfg.combine own top, w1)
+  | none => .error (.panic "cfg_stack_empty")
+  | some top => .ok (Cfg.combine own top, w1)
 
-def propagateCfg (d : Device) : M Device := do
-  let fb := fun (w : CfgWalk) (depth : Nat) (h : BlockHead) => do
-    let (c, w1) ← cfgStep w depth h.cfg
-    pure ({ h with cfg := c }, { currentDepth := w1.currentDepth + 1, stack := c :: w1.stack })
-  let fl := fun (w : CfgWalk) (depth : Nat) (o : Object) => do
-    let (c, w1) ← cfgStep w depth o.cfg
-    let o' : Object := match o with
-      | .register r => .register { r with cfg := c, fields := r.fields.map (enumCfgOfField c) }
-      | .command x => .command { x with cfg := c, inFields := x.inFields.map (enumCfgOfField c),
-                                          outFields := x.outFields.map (enumCfgOfField c) }
-      | other => other.setCfg c
-    pure (o', w1)
-  let (os, _) ← visitList fb fl 0 ⟨0, [none]⟩ d.objects
-  pure { d with objects := os }
+/-- What the callback does to a non-block object once its combined cfg `c` is known. -/
+def applyLeafCfg (c : Cfg) : Object → Object
+  | .register r => .register { r with cfg := c, fields := r.fields.map (enumCfgOfField c) }
+  | .command x => .command { x with cfg := c, inFields := x.inFields.map (enumCfgOfField c),
+                                      outFields := x.outFields.map (enumCfgOfField c) }
+  | other => other.setCfg c
+
+/- The depth-tracked walk of `propagate_cfg.rs` over `recurse_objects_with_depth_mut`. -/
+mutual
+def cfgWalkObj (depth : Nat) (w : CfgWalk) : Object → M (Object × CfgWalk)
+  | .block h os =>
+    match cfgStep w depth h.cfg with
+    | .error e => .error e
+    | .ok (c, w1) =>
+      match cfgWalkList (depth + 1) { currentDepth := w1.currentDepth + 1, stack := c :: w1.stack } os with
+      | .error e => .error e
+      | .ok (os', w2) => .ok (.block { h with cfg := c } os', w2)
+  | .register r =>
+    match cfgStep w depth r.cfg with
+    | .error e => .error e
+    | .ok (c, w1) => .ok (applyLeafCfg c (.register r), w1)
+  | .command x =>
+    match cfgStep w depth x.cfg with
+    | .error e => .error e
+    | .ok (c, w1) => .ok (applyLeafCfg c (.command x), w1)
+  | .buffer b =>
+    match cfgStep w depth b.cfg with
+    | .error e => .error e
+    | .ok (c, w1) => .ok (applyLeafCfg c (.buffer b), w1)
+  | .ref r =>
+    match cfgStep w depth r.cfg with
+    | .error e => .error e
+    | .ok (c, w1) => .ok (applyLeafCfg c (.ref r), w1)
+def cfgWalkList (depth : Nat) (w : CfgWalk) : List Object → M (List Object × CfgWalk)
+  | [] => .ok ([], w)
+  | o :: os =>
+    match cfgWalkObj depth w o with
+    | .error e => .error e
+    | .ok (o', w1) =>
+      match cfgWalkList depth w1 os with
+      | .error e => .error e
+      | .ok (os', w2) => .ok (o' :: os', w2)
+end
+
+def propagateCfg (d : Device) : M Device :=
+  match cfgWalkList 0 ⟨0, [none]⟩ d.objects with
+  | .error e => .error e
+  | .ok (os, _) => .ok { d with objects := os }
 
 /-! ### 2. names_normalized -/
 
@@ -242,48 +276,57 @@ def duplicatesBy {α κ : Type} [BEq κ] (key : α → κ) : List α → List κ
     else if seenOnce.contains (key x) then x :: duplicatesBy key xs seenOnce (key x :: reported)
     else duplicatesBy key xs (key x :: seenOnce) reported
 
-/-- `(0..=highest).all(|val| seen.any(|s| s == val))` — decided without iterating 2^w values:
-    every pattern is listed iff the listed values inside `[0, highest]` number `highest + 1`
-    distinct ones. -/
+/-- `(0..=highest).all(|val| seen.any(|s| s == val))`, literally (so it iterates 2^w values, as
+    the real pass does — wide enum fields make both take forever). -/
 def bitsCovered (highest : Int) (seen : List Int) : Bool :=
-  let inRange := (seen.filter fun v => 0 ≤ v ∧ v ≤ highest).eraseDups
-  decide ((inRange.length : Int) = highest + 1)
+  (List.range (highest + 1).toNat).all fun v => seen.contains (v : Int)
+
+def hasFallback (vs : List EnumVariant) : Bool :=
+  vs.any fun v => v.value == .default || v.value == .catchAll
+
+def countDefault (vs : List EnumVariant) : Nat := (vs.filter (·.value == .default)).length
+def countCatchAll (vs : List EnumVariant) : Nat := (vs.filter (·.value == .catchAll)).length
+
+def dupKey (x : Int × String × Cfg) : Int × Cfg := (x.1, x.2.2)
+
+/-- The analysis of one inline enum (enum_values_checked.rs:17-133), check by check in the order of
+    the code. -/
+def checkEnum (objName : String) (f : Field) (e : Enum) (useTry : Bool) : M Field :=
+  let bits := f.width
+  -- `(1 << field_bits) - 1` in i128: shift overflow at >= 128, subtraction overflow at 127
+  if bits ≥ 128 then .error (.panic "shift_overflow")
+  else if bits = 127 then .error (.panic "arith_overflow")
+  else
+    let highest : Int := 2 ^ bits - 1
+    if e.variants.isEmpty then .error (passErr "enum_empty" [e.name])
+    else
+      let variants := (assignValues e.variants none).1
+      let seen := (assignValues e.variants none).2
+      -- two variants clash when they get the same number under the same cfg
+      let dups := duplicatesBy dupKey seen [] []
+      if !dups.isEmpty then
+        .error (passErr "enum_dup_value"
+          ([e.name, objName, f.name] ++ dups.map fun (num, name, cfg) => s!"{uniqueIdDisplay name cfg}: {num}"))
+      else
+        let style : GenStyle :=
+          if hasFallback e.variants || bitsCovered highest (seen.map (·.1)) then .infallible bits else .fallible
+        match seen.find? (fun x => x.1 > highest) with
+        | some (v, name, cfg) =>
+          .error (passErr "enum_value_too_high" [uniqueIdDisplay name cfg, e.name, objName, f.name] [v, highest])
+        | none =>
+          match (if f.base != .int then seen.find? (fun x => x.1 < 0) else none) with
+          | some (v, name, cfg) =>
+            .error (passErr "enum_value_too_low" [uniqueIdDisplay name cfg, e.name, objName, f.name] [v, 0])
+          | none =>
+            if countDefault e.variants ≥ 2 then .error (passErr "enum_multi_default" [e.name, objName, f.name])
+            else if countCatchAll e.variants ≥ 2 then .error (passErr "enum_multi_catch_all" [e.name, objName, f.name])
+            else if style == .fallible && !useTry then .error (passErr "enum_not_total" [e.name, objName, f.name])
+            else .ok { f with conv := some (.enum { e with variants := variants, style := some style } useTry) }
 
 def checkEnumField (objName : String) (f : Field) : M Field :=
   match f.conv with
-  | some (.enum e useTry) => do
-    let bits := f.width
-    -- `(1 << field_bits) - 1` in i128: shift overflow at >= 128, subtraction overflow at 127
-    if bits ≥ 128 then throw (.panic "shift_overflow")
-    if bits = 127 then throw (.panic "arith_overflow")
-    let highest : Int := 2 ^ bits - 1
-    if e.variants.isEmpty then throw (passErr "enum_empty" [e.name])
-    let (variants, seen) := assignValues e.variants none
-    -- two variants clash when they get the same number under the same cfg
-    let dups := duplicatesBy (fun (x : Int × String × Cfg) => (x.1, x.2.2)) seen [] []
-    if !dups.isEmpty then
-      throw (passErr "enum_dup_value"
-        ([e.name, objName, f.name] ++ dups.map fun (num, name, cfg) => s!"{uniqueIdDisplay name cfg}: {num}"))
-    let hasFallback := e.variants.any fun v => v.value == .default || v.value == .catchAll
-    let covered := bitsCovered highest (seen.map (·.1))
-    let style : GenStyle := if hasFallback || covered then .infallible bits else .fallible
-    match seen.find? (fun (v, _) => v > highest) with
-    | some (v, name, cfg) =>
-      throw (passErr "enum_value_too_high" [uniqueIdDisplay name cfg, e.name, objName, f.name] [v, highest])
-    | none => pure ()
-    if f.base != .int then
-      match seen.find? (fun (v, _) => v < 0) with
-      | some (v, name, cfg) =>
-        throw (passErr "enum_value_too_low" [uniqueIdDisplay name cfg, e.name, objName, f.name] [v, 0])
-      | none => pure ()
-    if (e.variants.filter (·.value == .default)).length ≥ 2 then
-      throw (passErr "enum_multi_default" [e.name, objName, f.name])
-    if (e.variants.filter (·.value == .catchAll)).length ≥ 2 then
-      throw (passErr "enum_multi_catch_all" [e.name, objName, f.name])
-    if style == .fallible && !useTry then
-      throw (passErr "enum_not_total" [e.name, objName, f.name])
-    pure { f with conv := some (.enum { e with variants := variants, style := some style } useTry) }
-  | _ => pure f
+  | some (.enum e useTry) => checkEnum objName f e useTry
+  | _ => .ok f
 
 def enumValuesChecked (d : Device) : M Device := do
   let os ← mapObjects (fun h => .ok h) (fun o => match o with
